@@ -270,6 +270,10 @@ pub fn generate(g: &mut Gen, thorough: bool) {
             }
         }
     }
+    // every documented parameter of every operator is read (one definition per operator, all its parameters given)
+    for def in super::c09::EVERY_PARAMETER {
+        g.push(format!("S_C16G\t{}", crate::wire::escape(def)), "oracle-every-parameter-is-read", true);
+    }
     // a list of texts holds exactly the elements written, the empty ones at either end included
     for v in ["a,b", "a,b,", ",a", ",", "a,", "a,,b", "", "a", "test.datum,", "@x,y,@null", " a , b "] {
         g.push(format!("S_C16N\t{}", crate::wire::escape(v)), "oracle-text-lists", true);
